@@ -7,6 +7,7 @@ Driver for C36.
 
   `src <feature description>`     answer `-`   the source, in the order a 1-goroutine read delivers it
   `build`                         answer `-`   end of the source
+  `reset`                         answer `-`   next input of the corpus case
   `obs basic|compact <query>`     answer = that world's (1-goroutine build) answer; the model recomputes it
                                   (ids through the *validator fold* over the arrival order and through
                                   `WorldRead.build`, which must agree), and the line is hashed
@@ -57,6 +58,7 @@ def step (st : St) (op impl : String) : St × Verdict :=
     match parseFeature (sdrop op 4) with
     | some f => ({ st with src := f :: st.src }, if impl == "-" then .ok else .diff "-")
     | none => (st, .bad)
+  | ["reset"] => ({}, .ok)
   | ["build"] =>
     if impl == "-" then
       let src := st.src.reverse
